@@ -1870,28 +1870,24 @@ func init() {
 	}
 }
 
-func r08_5(c *Ctx) {
-	P := c.P
-	var fn *ssa.Function
-	for _, f := range P.Funcs {
-		if f.Parent() == nil && f.Name() == "findIDInQueue" && f.Synthetic == "" && inSSEPackage(f) {
-			fn = f
-		}
-	}
-	if fn == nil {
-		c.anchor("findIDInQueue")
-		return
-	}
+type protoVerdict struct {
+	bad  bool
+	desc string
+}
+
+// lookupProtocol analyses one (loop-free) lookup function: for each return, is the returned
+// index -1, q.head, or compared with q.tail after its last modification? A return that passes on
+// the result of another module lookup function is fine iff that function is.
+func lookupProtocol(fn *ssa.Function, depth int) (map[*ssa.Return]*protoVerdict, string) {
 	if len(loopsOf(fn)) > 0 {
-		c.undecided(fnLabel(fn)+":protocol", P.pos(fn.Pos()), "findIDInQueue contains a loop; the path enumeration of this rule does not apply")
-		return
+		return nil, "the function contains a loop; the path enumeration of this rule does not apply"
 	}
 	isTail := func(v ssa.Value) bool { _, ok := isFieldLoad(v, "queue", "tail"); return ok }
 	isHead := func(v ssa.Value) bool { _, ok := isFieldLoad(v, "queue", "head"); return ok }
 	type st struct {
-		cell    map[ssa.Value]string // cell root -> neg1|head|checked|unknown
-		checked map[ssa.Value]bool   // SSA values known != tail
-		neg     map[ssa.Value]bool   // SSA values known == -1
+		cell    map[ssa.Value]string
+		checked map[ssa.Value]bool
+		neg     map[ssa.Value]bool
 		phi     map[*ssa.Phi]ssa.Value
 	}
 	clone := func(s *st) *st {
@@ -1910,13 +1906,8 @@ func r08_5(c *Ctx) {
 		}
 		return n
 	}
-	// a load of a local cell remembers the cell state at load time
 	loadState := map[ssa.Value]string{}
-	type verdict struct {
-		bad  bool
-		desc string
-	}
-	results := map[*ssa.Return]*verdict{}
+	results := map[*ssa.Return]*protoVerdict{}
 	var classify func(s *st, v ssa.Value) string
 	classify = func(s *st, v ssa.Value) string {
 		if k, ok := constInt(v); ok {
@@ -1942,12 +1933,44 @@ func r08_5(c *Ctx) {
 		if ls, ok := loadState[v]; ok {
 			return ls
 		}
+		// the result of another lookup function of the module
+		if call, ok := v.(*ssa.Call); ok && depth < 3 {
+			callee := call.Call.StaticCallee()
+			if callee != nil && callee.Blocks == nil && callee.Origin() != nil {
+				callee = callee.Origin()
+			}
+			if callee != nil && callee != fn && callee.Blocks != nil && inSSEPackage(callee) {
+				// instantiation wrappers forward to the generic body
+				target := callee
+				if callee.Synthetic != "" {
+					eachInstr(callee, func(in ssa.Instruction) {
+						if c2, ok := in.(*ssa.Call); ok {
+							if g := c2.Call.StaticCallee(); g != nil && g.Blocks != nil {
+								target = g
+							}
+						}
+					})
+				}
+				sub, why := lookupProtocol(target, depth+1)
+				if why == "" && len(sub) > 0 {
+					all := true
+					for _, v := range sub {
+						if v.bad {
+							all = false
+						}
+					}
+					if all {
+						return "checked"
+					}
+				}
+			}
+		}
 		return "unknown"
 	}
 	nPaths := 0
-	var walk func(b *ssa.BasicBlock, pred *ssa.BasicBlock, s *st, depth int)
-	walk = func(b *ssa.BasicBlock, pred *ssa.BasicBlock, s *st, depth int) {
-		if depth > 64 || nPaths > 20000 {
+	var walk func(b *ssa.BasicBlock, pred *ssa.BasicBlock, s *st, depthW int)
+	walk = func(b *ssa.BasicBlock, pred *ssa.BasicBlock, s *st, depthW int) {
+		if depthW > 64 || nPaths > 20000 {
 			return
 		}
 		for _, in := range b.Instrs {
@@ -1962,7 +1985,7 @@ func r08_5(c *Ctx) {
 				if al, ok := cellRoot(x.Addr).(*ssa.Alloc); ok && x.Addr == ssa.Value(al) && al.Type().String() == "*int" {
 					s.cell[al] = classify(s, x.Val)
 					if s.cell[al] == "checked" {
-						s.cell[al] = "unknown" // a derived value must be re-checked
+						s.cell[al] = "unknown"
 					}
 				}
 			case *ssa.UnOp:
@@ -1976,7 +1999,6 @@ func r08_5(c *Ctx) {
 					}
 				}
 			case *ssa.Call:
-				// a call that may write a captured cell (the search callback) makes it unknown
 				for _, a := range x.Call.Args {
 					if mc, ok := a.(*ssa.MakeClosure); ok {
 						for _, bnd := range mc.Bindings {
@@ -1994,14 +2016,13 @@ func r08_5(c *Ctx) {
 					ns := clone(s)
 					if cnd.Y != nil && (cnd.Op == token.EQL || cnd.Op == token.NEQ) {
 						eqEdge := cnd.succWhen(cnd.Op == token.EQL)
-						var val, other ssa.Value
+						var val ssa.Value
 						switch {
 						case isTail(cnd.Y):
-							val, other = cnd.X, cnd.Y
+							val = cnd.X
 						case isTail(cnd.X):
-							val, other = cnd.Y, cnd.X
+							val = cnd.Y
 						}
-						_ = other
 						mark := func(v ssa.Value, what string) {
 							if what == "checked" {
 								ns.checked[v] = true
@@ -2020,28 +2041,28 @@ func r08_5(c *Ctx) {
 						if val != nil && idx != eqEdge {
 							mark(val, "checked")
 						}
-						// comparison with the constant -1
 						if k, ok := constInt(cnd.Y); ok && k == -1 && idx == eqEdge {
 							mark(cnd.X, "neg1")
 						}
 					}
-					walk(b.Succs[idx], b, ns, depth+1)
+					walk(b.Succs[idx], b, ns, depthW+1)
 				}
 				return
 			case *ssa.Jump:
-				walk(b.Succs[0], b, s, depth+1)
+				walk(b.Succs[0], b, s, depthW+1)
 				return
 			case *ssa.Return:
 				nPaths++
 				v := results[x]
 				if v == nil {
-					v = &verdict{}
+					v = &protoVerdict{}
 					results[x] = v
 				}
-				cl := classify(s, x.Results[0])
-				if cl == "unknown" {
-					v.bad = true
-					v.desc = describe(x.Results[0])
+				if len(x.Results) == 1 {
+					if classify(s, x.Results[0]) == "unknown" {
+						v.bad = true
+						v.desc = describe(x.Results[0])
+					}
 				}
 				return
 			case *ssa.Panic:
@@ -2050,6 +2071,26 @@ func r08_5(c *Ctx) {
 		}
 	}
 	walk(fn.Blocks[0], nil, &st{cell: map[ssa.Value]string{}, checked: map[ssa.Value]bool{}, neg: map[ssa.Value]bool{}, phi: map[*ssa.Phi]ssa.Value{}}, 0)
+	return results, ""
+}
+
+func r08_5(c *Ctx) {
+	P := c.P
+	var fn *ssa.Function
+	for _, f := range P.Funcs {
+		if f.Parent() == nil && f.Name() == "findIDInQueue" && f.Synthetic == "" && inSSEPackage(f) {
+			fn = f
+		}
+	}
+	if fn == nil {
+		c.anchor("findIDInQueue")
+		return
+	}
+	results, why := lookupProtocol(fn, 0)
+	if why != "" {
+		c.undecided(fnLabel(fn)+":protocol", P.pos(fn.Pos()), why)
+		return
+	}
 	i := 0
 	for _, ret := range returnsOf(fn) {
 		v := results[ret]
